@@ -145,6 +145,46 @@ def poseidon():
     return d
 
 
+API_SOURCES = [("LinComb", "pysnark/runtime.py", "LinComb"), ("LinCombBool", "pysnark/boolean.py", "LinCombBool"),
+               ("LinCombFxp", "pysnark/fixedpoint.py", "LinCombFxp"), ("array", "pysnark/array.py", None),
+               ("pack", "pysnark/pack.py", None), ("branching", "pysnark/branching.py", None),
+               ("atexitmaybe", "pysnark/atexitmaybe.py", None)]
+
+
+def api_surface():
+    """the methods of the modelled classes / the functions and methods of the modelled modules, in source order:
+    a method ADDED to (or removed from) the code changes a generated list, and the `rfl` obligation pinning it in the
+    property file fails, so that an API the model does not know about (e.g. a new `__iadd__`) is never silently outside it"""
+    out = {}
+    for key, rel, cls in API_SOURCES:
+        t = parse(rel)
+        names = []
+        def walk(body, prefix):
+            for n in body:
+                if isinstance(n, (ast.FunctionDef, ast.AsyncFunctionDef)):
+                    names.append(prefix + n.name)
+                elif isinstance(n, ast.ClassDef) and cls is None:
+                    walk(n.body, prefix + n.name + ".")
+        if cls is None:
+            walk(t.body, "")
+        else:
+            found = [n for n in t.body if isinstance(n, ast.ClassDef) and n.name == cls]
+            if not found:
+                raise ExtractError(f"{rel}: no class {cls}")
+            walk(found[0].body, "")
+        out[key] = names
+    return out
+
+
+def render_api(a):
+    L = ["/-! GENERATED by harness/extract.py from /repo's working tree on every run. Do not edit. -/", "namespace Pysnark.Gen"]
+    for key, rel, cls in API_SOURCES:
+        what = f"methods of class `{cls}`" if cls else "functions and methods"
+        L.append(f"/-- `{rel}`: {what}, in source order -/\ndef api_{key} : List String := " + lean_list(a.get(key, []), lean_str))
+    L.append("end Pysnark.Gen")
+    return "\n".join(L) + "\n"
+
+
 def lean_str(s):
     return '"' + s.replace("\\", "\\\\").replace('"', '\\"') + '"'
 
@@ -216,6 +256,11 @@ def run():
         write_if_changed(os.path.join(gen, "Constants.lean"), render_constants(c))
     if d is not None:
         write_if_changed(os.path.join(gen, "Poseidon.lean"), render_poseidon(d))
+    try:
+        a = api_surface()
+    except ExtractError as e:
+        errors.append(str(e)); a = {}
+    write_if_changed(os.path.join(gen, "Api.lean"), render_api(a))
     return c, d, errors
 
 
